@@ -94,10 +94,13 @@ Definition node_name (k : nodekind) : string :=
   | KMultiSurface => "MULTISURFACE" | KCollection => "GEOMETRYCOLLECTION"
   end.
 
-(* appendSimpleCurveText: a circular string carries its tag, a line string / linear ring is bare *)
+Definition leaf_tagged (c : cfg) (o : dims) (k : leafkind) (d : dims) (cs : list coord) : list token :=
+  W (leaf_name k) :: ordinate_text c o ++ sequence_text o d cs.
+
+(* appendSimpleCurveText: a circular string carries its tag (with the ENCLOSING element's ordinates), a line string / linear ring is bare *)
 Definition simple_curve_text (c : cfg) (o : dims) (g : geom) : list token :=
   match g with
-  | GLeaf KCircularString d cs => W "CIRCULARSTRING" :: ordinate_text c o ++ sequence_text o d cs
+  | GLeaf KCircularString d cs => leaf_tagged c o KCircularString d cs
   | GLeaf _ d cs => sequence_text o d cs
   | GNode _ _ => []        (* not a simple curve: excluded by well-formedness *)
   end.
@@ -118,6 +121,9 @@ Definition curve_text (c : cfg) (o : dims) (g : geom) : list token :=
 Definition surface_text (c : cfg) (o : dims) (g : geom) (rings : list geom) : list token :=
   if isEmpty g then [W "EMPTY"] else TL :: sep_by (curve_text c o) rings ++ [TR].
 
+Definition curvepolygon_text (c : cfg) (o : dims) (g : geom) (rings : list geom) : list token :=
+  W "CURVEPOLYGON" :: ordinate_text c o ++ surface_text c o g rings.
+
 (* appendMultiPointText *)
 Definition multipoint_member (o : dims) (g : geom) : list token :=
   match g with
@@ -129,21 +135,21 @@ Definition multipoint_member (o : dims) (g : geom) : list token :=
 Definition multisurface_member (c : cfg) (o : dims) (g : geom) : list token :=
   match g with
   | GNode KPolygon rings => surface_text c o g rings
-  | GNode KCurvePolygon rings => W "CURVEPOLYGON" :: ordinate_text c o ++ surface_text c o g rings
+  | GNode KCurvePolygon rings => curvepolygon_text c o g rings
   | _ => []
   end.
 
 Definition list_text {X} (f : X -> list token) (l : list X) : list token :=
   match l with [] => [W "EMPTY"] | _ => TL :: sep_by f l ++ [TR] end.
 
-(* appendGeometryTaggedText *)
-Fixpoint tagged_text (c : cfg) (g : geom) : list token :=
-  let o := out_ordinates c g in
+(* appendGeometryTaggedText with the output ordinates o already decided: everything below one tagged element is written
+   with that element's ordinates; only the members of a GEOMETRYCOLLECTION decide their own *)
+Fixpoint tagged_text_o (c : cfg) (o : dims) (g : geom) : list token :=
   match g with
-  | GLeaf k d cs => W (leaf_name k) :: ordinate_text c o ++ sequence_text o d cs
+  | GLeaf k d cs => leaf_tagged c o k d cs
   | GNode KCompoundCurve l => compound_text c o g l
   | GNode KPolygon l => W "POLYGON" :: ordinate_text c o ++ surface_text c o g l
-  | GNode KCurvePolygon l => W "CURVEPOLYGON" :: ordinate_text c o ++ surface_text c o g l
+  | GNode KCurvePolygon l => curvepolygon_text c o g l
   | GNode KMultiPoint l => W "MULTIPOINT" :: ordinate_text c o ++ list_text (multipoint_member o) l
   | GNode KMultiLineString l => W "MULTILINESTRING" :: ordinate_text c o ++ list_text (curve_text c o) l
   | GNode KMultiCurve l => W "MULTICURVE" :: ordinate_text c o ++ list_text (curve_text c o) l
@@ -156,12 +162,13 @@ Fixpoint tagged_text (c : cfg) (g : geom) : list token :=
       | _ => TL :: (fix members (l : list geom) : list token :=
                       match l with
                       | [] => []
-                      | [x] => tagged_text c x
-                      | x :: t => tagged_text c x ++ TC :: members t
+                      | [x] => tagged_text_o c (out_ordinates c x) x
+                      | x :: t => tagged_text_o c (out_ordinates c x) x ++ TC :: members t
                       end) l ++ [TR]
       end
   end.
 
+Definition tagged_text (c : cfg) (g : geom) : list token := tagged_text_o c (out_ordinates c g) g.
 Definition print_tokens := tagged_text.
 
 (* the characters the writer puts between tokens: "TYPE ", "Z ", "(", ")", ", ", one blank between ordinates, EMPTY bare *)
@@ -375,86 +382,125 @@ Definition read_list (k : nodekind) (item : flags -> list token -> option (geom 
   | None => None
   end.
 
-(* readGeometryTaggedText (tokenizer, ordinateFlags, emptyType) and the read<Type>Text functions below it. The flags go
-   in and come out exactly where the C++ passes the OrdinateSet by reference; readGeometryTaggedText works on a fresh
-   copy (newFlags) and only compares it with the caller's. One unit of fuel per nesting level / list element. *)
-Fixpoint tagged (fuel : nat) (orig : flags) (et : option empty_type) (ts : list token) {struct fuel} : option (geom * list token) :=
-  match fuel with
-  | O => None
-  | S f =>
-      match ts with
-      | TWord w0 :: r =>
-          let w := map upper w0 in
-          (* readCurveText *)
-          let curve (fl : flags) (ts : list token) : option (geom * flags * list token) :=
-            match ts with
-            | TL :: _ => read_leaf KLineString f fl ts
-            | _ => match tagged f fl (Some ELineString) ts with
-                   | Some (g, r1) => if is_curve g then Some (g, fl, r1) else None
-                   | None => None
-                   end
-            end in
-          (* readSurfaceText *)
-          let surface (fl : flags) (ts : list token) : option (geom * flags * list token) :=
-            match ts with
-            | TL :: _ => read_polygon f fl ts
-            | _ => match tagged f fl (Some EPolygon) ts with
-                   | Some (g, r1) => if is_surface g then Some (g, fl, r1) else None
-                   | None => None
-                   end
-            end in
-          let simple (fl : flags) (ts : list token) : option (geom * flags * list token) :=
-            match curve fl ts with
-            | Some (g, fl1, r1) => if is_simple_curve g then Some (g, fl1, r1) else None
-            | None => None
-            end in
-          let member (fl : flags) (ts : list token) : option (geom * flags * list token) :=
-            match tagged f fl None ts with Some (g, r1) => Some (g, fl, r1) | None => None end in
-          if str_eqb w "EMPTY" then
-            match et with
-            | Some ELineString => Some (GLeaf KLineString (fdims orig) [], r)
-            | Some EPolygon => Some (GNode KPolygon [empty_ring (fdims orig)], r)
-            | None => None
-            end
-          else
-            let nf := read_ordinate_flags w in
-            let res :=
-              if is_type_name w "POINT" then read_leaf KPoint f nf r
-              else if is_type_name w "LINESTRING" then read_leaf KLineString f nf r
-              else if is_type_name w "LINEARRING" then read_leaf KLinearRing f nf r
-              else if is_type_name w "CIRCULARSTRING" then read_leaf KCircularString f nf r
-              else if is_type_name w "COMPOUNDCURVE" then read_list KCompoundCurve simple f nf r
-              else if is_type_name w "POLYGON" then read_polygon f nf r
-              else if is_type_name w "CURVEPOLYGON" then
-                match empty_or_opener nf r with
-                | Some (true, fl1, r1) => Some (GNode KCurvePolygon [empty_ring (fdims fl1)], fl1, r1)
-                | Some (false, fl1, r1) =>
-                    match items curve f fl1 r1 with
-                    | Some (xs, fl2, r2) => Some (GNode KCurvePolygon xs, fl2, r2)
-                    | None => None
-                    end
-                | None => None
-                end
-              else if is_type_name w "MULTIPOINT" then
-                (* only the "MULTIPOINT ((x y), EMPTY)" form the writer produces; the flat "MULTIPOINT (x y, ...)" form is outside this model *)
-                match empty_or_opener nf r with
-                | Some (false, _, TNum _ :: _) => None
-                | _ => read_list KMultiPoint (read_leaf KPoint f) f nf r
-                end
-              else if is_type_name w "MULTILINESTRING" then read_list KMultiLineString (read_leaf KLineString f) f nf r
-              else if is_type_name w "MULTICURVE" then read_list KMultiCurve curve f nf r
-              else if is_type_name w "MULTIPOLYGON" then read_list KMultiPolygon (read_polygon f) f nf r
-              else if is_type_name w "MULTISURFACE" then read_list KMultiSurface surface f nf r
-              else if is_type_name w "GEOMETRYCOLLECTION" then read_list KCollection member f nf r
-              else None in
-            match res with
-            | Some (g, nf', r') =>
-                if negb (fchg orig) && negb (flags_val_eqb nf' orig) then None   (* Cannot mix dimensionality in a geometry *)
-                else Some (g, r')
-            | None => None
-            end
-      | _ => None
+Inductive wkt_type := TyPoint | TyLineString | TyLinearRing | TyCircularString | TyCompoundCurve | TyPolygon | TyCurvePolygon
+                    | TyMultiPoint | TyMultiLineString | TyMultiCurve | TyMultiPolygon | TyMultiSurface | TyCollection.
+
+(* the if-chain of isTypeName tests in readGeometryTaggedText *)
+Definition type_of_word (w : str) : option wkt_type :=
+  if is_type_name w "POINT" then Some TyPoint
+  else if is_type_name w "LINESTRING" then Some TyLineString
+  else if is_type_name w "LINEARRING" then Some TyLinearRing
+  else if is_type_name w "CIRCULARSTRING" then Some TyCircularString
+  else if is_type_name w "COMPOUNDCURVE" then Some TyCompoundCurve
+  else if is_type_name w "POLYGON" then Some TyPolygon
+  else if is_type_name w "CURVEPOLYGON" then Some TyCurvePolygon
+  else if is_type_name w "MULTIPOINT" then Some TyMultiPoint
+  else if is_type_name w "MULTILINESTRING" then Some TyMultiLineString
+  else if is_type_name w "MULTICURVE" then Some TyMultiCurve
+  else if is_type_name w "MULTIPOLYGON" then Some TyMultiPolygon
+  else if is_type_name w "MULTISURFACE" then Some TyMultiSurface
+  else if is_type_name w "GEOMETRYCOLLECTION" then Some TyCollection
+  else None.
+
+Definition tagged_fn := flags -> option empty_type -> list token -> option (geom * list token).
+Definition reader := flags -> list token -> option (geom * flags * list token).
+
+(* readCurveText: "(" starts a bare line string; otherwise a tagged geometry that must be a curve (EMPTY = empty line string) *)
+Definition read_curve (T : tagged_fn) (f : nat) : reader := fun fl ts =>
+  match ts with
+  | TL :: _ => read_leaf KLineString f fl ts
+  | _ => match T fl (Some ELineString) ts with
+         | Some (g, r1) => if is_curve g then Some (g, fl, r1) else None
+         | None => None
+         end
+  end.
+
+(* readSurfaceText *)
+Definition read_surface (T : tagged_fn) (f : nat) : reader := fun fl ts =>
+  match ts with
+  | TL :: _ => read_polygon f fl ts
+  | _ => match T fl (Some EPolygon) ts with
+         | Some (g, r1) => if is_surface g then Some (g, fl, r1) else None
+         | None => None
+         end
+  end.
+
+(* the member loop of readCompoundCurveText: a curve that must be a SimpleCurve *)
+Definition read_simple (T : tagged_fn) (f : nat) : reader := fun fl ts =>
+  match read_curve T f fl ts with
+  | Some (g, fl1, r1) => if is_simple_curve g then Some (g, fl1, r1) else None
+  | None => None
+  end.
+
+(* the member loop of readGeometryCollectionText: the collection's flags are only looked at *)
+Definition read_member (T : tagged_fn) : reader := fun fl ts =>
+  match T fl None ts with Some (g, r1) => Some (g, fl, r1) | None => None end.
+
+Definition read_curvepolygon (T : tagged_fn) (f : nat) : reader := fun nf r =>
+  match empty_or_opener nf r with
+  | Some (true, fl1, r1) => Some (GNode KCurvePolygon [empty_ring (fdims fl1)], fl1, r1)
+  | Some (false, fl1, r1) =>
+      match items (read_curve T f) f fl1 r1 with
+      | Some (xs, fl2, r2) => Some (GNode KCurvePolygon xs, fl2, r2)
+      | None => None
       end
+  | None => None
+  end.
+
+(* only the "MULTIPOINT ((x y), EMPTY)" form the writer produces; the flat "MULTIPOINT (x y, ...)" form is outside this model *)
+Definition read_multipoint (f : nat) : reader := fun nf r =>
+  match empty_or_opener nf r with
+  | Some (false, _, TNum _ :: _) => None
+  | _ => read_list KMultiPoint (read_leaf KPoint f) f nf r
+  end.
+
+(* the read<Type>Text function selected by the type word; nf is the fresh OrdinateSet (newFlags) *)
+Definition dispatch (T : tagged_fn) (f : nat) (ty : wkt_type) : reader :=
+  match ty with
+  | TyPoint => read_leaf KPoint f
+  | TyLineString => read_leaf KLineString f
+  | TyLinearRing => read_leaf KLinearRing f
+  | TyCircularString => read_leaf KCircularString f
+  | TyCompoundCurve => read_list KCompoundCurve (read_simple T f) f
+  | TyPolygon => read_polygon f
+  | TyCurvePolygon => read_curvepolygon T f
+  | TyMultiPoint => read_multipoint f
+  | TyMultiLineString => read_list KMultiLineString (read_leaf KLineString f) f
+  | TyMultiCurve => read_list KMultiCurve (read_curve T f) f
+  | TyMultiPolygon => read_list KMultiPolygon (read_polygon f) f
+  | TyMultiSurface => read_list KMultiSurface (read_surface T f) f
+  | TyCollection => read_list KCollection (read_member T) f
+  end.
+
+(* readGeometryTaggedText (tokenizer, ordinateFlags, emptyType), one level: T reads the nested tagged geometries.
+   The caller's flags `orig` are only compared with the fresh ones after reading ("Cannot mix dimensionality in a geometry"). *)
+Definition tagged_body (T : tagged_fn) (f : nat) : tagged_fn := fun orig et ts =>
+  match ts with
+  | TWord w0 :: r =>
+      let w := map upper w0 in
+      if str_eqb w "EMPTY" then
+        match et with
+        | Some ELineString => Some (GLeaf KLineString (fdims orig) [], r)
+        | Some EPolygon => Some (GNode KPolygon [empty_ring (fdims orig)], r)
+        | None => None
+        end
+      else
+        match type_of_word w with
+        | Some ty =>
+            match dispatch T f ty (read_ordinate_flags w) r with
+            | Some (g, nf', r') => if negb (fchg orig) && negb (flags_val_eqb nf' orig) then None else Some (g, r')
+            | None => None
+            end
+        | None => None
+        end
+  | _ => None
+  end.
+
+(* one unit of fuel per nesting level; the same amount bounds every list *)
+Fixpoint tagged (fuel : nat) : tagged_fn :=
+  match fuel with
+  | O => fun _ _ _ => None
+  | S f => tagged_body (tagged f) f
   end.
 
 (* WKTReader::read: one tagged geometry, then end of input *)
@@ -497,17 +543,21 @@ Section Thread.
     end.
 End Thread.
 
-(* an element that carries its own tag inside a tagged element with the same written ordinates o: it is read with fresh
-   flags, leaves the enclosing flags alone, and is rejected if the enclosing flags are determined and its own end up open *)
-Definition e_inner (c : cfg) (o : dims) (body : bool -> option (geom * bool)) (det : bool) : option (geom * bool) :=
-  match body (tag_written c o) with
-  | Some (g, cd) => if det && negb cd && negb (dims_eqb o XY) then None else Some (g, det)
+(* an element that carries its own tag inside a tagged element written with the same ordinates o: it is read with fresh
+   flags and leaves the enclosing flags alone; r is its own result with the value v its flags end with; it is rejected when
+   the enclosing flags are determined and differ from v *)
+Definition e_inner (o : dims) (r : option (geom * dims)) (det : bool) : option (geom * bool) :=
+  match r with
+  | Some (g, v) => if det && negb (dims_eqb v o) then None else Some (g, det)
   | None => None
   end.
 
+Definition fin (o : dims) (r : option (geom * bool)) : option (geom * dims) :=
+  match r with Some (g', d1) => Some (g', cur o d1) | None => None end.
+
 Definition e_simple (c : cfg) (o : dims) (g : geom) (det : bool) : option (geom * bool) :=
   match g with
-  | GLeaf KCircularString d cs => e_inner c o (e_seq o KCircularString d cs) det
+  | GLeaf KCircularString d cs => e_inner o (fin o (e_seq o KCircularString d cs (tag_written c o))) det
   | GLeaf KPoint _ _ => None
   | GLeaf _ d cs => e_seq o KLineString d cs det
   | GNode _ _ => None
@@ -519,7 +569,7 @@ Definition e_compound_body (c : cfg) (o : dims) (g : geom) (l : list geom) (det0
 
 Definition e_curve (c : cfg) (o : dims) (g : geom) (det : bool) : option (geom * bool) :=
   match g with
-  | GNode KCompoundCurve l => e_inner c o (e_compound_body c o g l) det
+  | GNode KCompoundCurve l => e_inner o (fin o (e_compound_body c o g l (tag_written c o))) det
   | _ => e_simple c o g det
   end.
 
@@ -537,7 +587,7 @@ Definition e_curvepolygon_body (c : cfg) (o : dims) (g : geom) (l : list geom) (
 Definition e_surface (c : cfg) (o : dims) (g : geom) (det : bool) : option (geom * bool) :=
   match g with
   | GNode KPolygon l => e_polygon_body o g l det
-  | GNode KCurvePolygon l => e_inner c o (e_curvepolygon_body c o g l) det
+  | GNode KCurvePolygon l => e_inner o (fin o (e_curvepolygon_body c o g l (tag_written c o))) det
   | _ => None
   end.
 
@@ -548,8 +598,8 @@ Definition e_point (o : dims) (g : geom) (det : bool) : option (geom * bool) :=
   | _ => None
   end.
 
-Definition e_line (o : dims) (g : geom) (det : bool) : option (geom * bool) :=
-  match g with GLeaf _ d cs => e_seq o KLineString d cs det | _ => None end.
+Definition e_line (c : cfg) (o : dims) (g : geom) (det : bool) : option (geom * bool) :=
+  match g with GLeaf KLineString d cs => e_seq o KLineString d cs det | _ => None end.
 
 Definition e_polygon_member (o : dims) (g : geom) (det : bool) : option (geom * bool) :=
   match g with GNode KPolygon l => e_polygon_body o g l det | _ => None end.
@@ -557,28 +607,27 @@ Definition e_polygon_member (o : dims) (g : geom) (det : bool) : option (geom * 
 Definition e_list {X} (k : nodekind) (E : X -> bool -> option (geom * bool)) (l : list X) (det : bool) : option (geom * bool) :=
   match thread E l det with Some (l', d1) => Some (GNode k l', d1) | None => None end.
 
-(* result of re-reading the text of a tagged element, with the value its flags end up with; None = the reader rejects it *)
-Fixpoint expect_tagged (c : cfg) (g : geom) : option (geom * dims) :=
-  let o := out_ordinates c g in
+(* result of re-reading the text of a tagged element written with ordinates o, with the value its flags end up with;
+   None = the reader rejects the text *)
+Fixpoint expect_o (c : cfg) (o : dims) (g : geom) : option (geom * dims) :=
   let d0 := tag_written c o in
-  let fin (r : option (geom * bool)) := match r with Some (g', d1) => Some (g', cur o d1) | None => None end in
   match g with
-  | GLeaf k d cs => fin (e_seq o k d cs d0)
-  | GNode KCompoundCurve l => fin (e_compound_body c o g l d0)
-  | GNode KPolygon l => fin (e_polygon_body o g l d0)
-  | GNode KCurvePolygon l => fin (e_curvepolygon_body c o g l d0)
-  | GNode KMultiPoint l => fin (e_list KMultiPoint (e_point o) l d0)
-  | GNode KMultiLineString l => fin (e_list KMultiLineString (e_line o) l d0)
-  | GNode KMultiCurve l => fin (e_list KMultiCurve (e_curve c o) l d0)
-  | GNode KMultiPolygon l => fin (e_list KMultiPolygon (e_polygon_member o) l d0)
-  | GNode KMultiSurface l => fin (e_list KMultiSurface (e_surface c o) l d0)
+  | GLeaf k d cs => fin o (e_seq o k d cs d0)
+  | GNode KCompoundCurve l => fin o (e_compound_body c o g l d0)
+  | GNode KPolygon l => fin o (e_polygon_body o g l d0)
+  | GNode KCurvePolygon l => fin o (e_curvepolygon_body c o g l d0)
+  | GNode KMultiPoint l => fin o (e_list KMultiPoint (e_point o) l d0)
+  | GNode KMultiLineString l => fin o (e_list KMultiLineString (e_line c o) l d0)
+  | GNode KMultiCurve l => fin o (e_list KMultiCurve (e_curve c o) l d0)
+  | GNode KMultiPolygon l => fin o (e_list KMultiPolygon (e_polygon_member o) l d0)
+  | GNode KMultiSurface l => fin o (e_list KMultiSurface (e_surface c o) l d0)
   | GNode KCollection l =>
       (* every member is a tagged element of its own; it must end with the collection's flag value if that is determined *)
       match (fix members (l : list geom) : option (list geom) :=
                match l with
                | [] => Some []
                | x :: t =>
-                   match expect_tagged c x with
+                   match expect_o c (out_ordinates c x) x with
                    | Some (x', v) =>
                        if d0 && negb (dims_eqb v o) then None
                        else match members t with Some t' => Some (x' :: t') | None => None end
@@ -589,6 +638,8 @@ Fixpoint expect_tagged (c : cfg) (g : geom) : option (geom * dims) :=
       | None => None
       end
   end.
+
+Definition expect_tagged (c : cfg) (g : geom) : option (geom * dims) := expect_o c (out_ordinates c g) g.
 
 Definition expect (c : cfg) (g : geom) : option geom :=
   match expect_tagged c g with Some (g', _) => Some g' | None => None end.
